@@ -18,7 +18,7 @@ PROPS = {
         "bounded": [],
     },
     "C05": {
-        "modules": ["c01_ledger", "c03_task"],
+        "modules": ["c01_ledger", "c03_task", "c16_scenarios"],
         "level": "other",
         "bounded": [],
     },
